@@ -25,8 +25,13 @@ func main() {
 	replay := flag.String("replay", "", "json {scenario, choices} to re-execute")
 	memstore := flag.Int("memstore", 0, "explore this many schedules of racing Store calls on the in-memory metastore (C13)")
 	coldrace := flag.Int("coldrace", 0, "explore this many schedules of cold session factories racing on one real in-memory metastore (C14, C02)")
+	cacheconc := flag.Int("cacheconc", 0, "explore this many schedules of goroutines operating on one real cache (C15 under concurrency)")
 	workers := flag.Int("workers", 3, "racing processes for -coldrace")
 	flag.Parse()
+	if *cacheconc > 0 {
+		die(concdrv.CacheConc(*cacheconc, 2, *seed, *trace, *out))
+		return
+	}
 	if *coldrace > 0 {
 		die(concdrv.ColdRace(*workers, *coldrace, 2, *seed, *trace, *out))
 		return
